@@ -8,7 +8,7 @@ namespace GcArena
 /-- `c'` agrees with `c` on everything the invariant reads. -/
 structure SameView (c c' : Ctx) : Prop where
   phase : c'.phase = c.phase
-  heap : c'.heap = c.heap
+  heap : ∀ j, c'.heap.get j = c.heap.get j
   pre : c'.pre = c.pre
   rest : c'.rest = c.rest
   rnt : c'.rootNeedsTrace = c.rootNeedsTrace
@@ -18,13 +18,13 @@ structure SameView (c c' : Ctx) : Prop where
   underflow : c'.metrics.underflow = c.metrics.underflow
   total : c'.metrics.totalGcs = c.metrics.totalGcs
 
-theorem SameView.refl (c : Ctx) : SameView c c := ⟨rfl, rfl, rfl, rfl, rfl, rfl, rfl, rfl, rfl, rfl⟩
+theorem SameView.refl (c : Ctx) : SameView c c := ⟨rfl, fun _ => rfl, rfl, rfl, rfl, rfl, rfl, rfl, rfl, rfl⟩
 
 theorem SameView.safe {c c'} (s : SameView c c') (i : Nat) : Safe c' i ↔ Safe c i := by
-  unfold Safe; rw [s.heap, s.phase, s.rest]
+  unfold Safe; simp only [s.heap, s.phase, s.rest]
 
 theorem SameView.weakOK {c c'} (s : SameView c c') (i : Nat) : WeakOK c' i ↔ WeakOK c i := by
-  unfold WeakOK; rw [s.heap, s.phase, s.rest]
+  unfold WeakOK; simp only [s.heap, s.phase, s.rest]
 
 theorem SameView.ptrOK {c c'} (s : SameView c c') (p : Ptr) : PtrOK c' p ↔ PtrOK c p := by
   cases p with
@@ -44,45 +44,45 @@ theorem CInvH.sameView {c c' : Ctx} {root temps hole} (h : CInvH c root temps ho
   · rw [s.underflow]; exact h.noUnderflow
   · rw [s.phase]; exact h.notDrop
   · rw [s.pre, s.rest]; exact h.nodup
-  · rw [s.pre, s.rest, s.heap]; exact h.memAll
+  · simp only [s.pre, s.rest, s.heap]; exact h.memAll
   · rw [s.phase, s.rest]; exact h.restNil
   · rw [s.total, s.pre, s.rest]; exact h.count
-  · rw [s.heap, s.gray, s.grayAgain]; exact h.grayQ
-  · rw [s.heap, s.gray, s.grayAgain]; exact h.qGray
+  · simp only [s.heap, s.gray, s.grayAgain]; exact h.grayQ
+  · simp only [s.heap, s.gray, s.grayAgain]; exact h.qGray
   · rw [s.gray, s.grayAgain]; exact h.qNodup
   · rw [s.phase, s.gray, s.grayAgain]; exact h.qMark
-  · rw [s.phase, s.heap]; exact h.sleepWhite
+  · simp only [s.phase, s.heap]; exact h.sleepWhite
   · rw [s.phase, s.rnt]; exact h.sleepRoot
   · rw [s.phase, s.rnt]; exact h.sweepRoot
-  · rw [s.phase, s.pre, s.heap]; exact h.preWhite
-  · rw [s.heap]; exact h.markedLive
-  · rw [s.heap]; exact h.deadNoSlots
-  · rw [s.heap]; exact h.leafNoPtr
-  · rw [s.phase, s.heap]
+  · simp only [s.phase, s.pre, s.heap]; exact h.preWhite
+  · simp only [s.heap]; exact h.markedLive
+  · simp only [s.heap]; exact h.deadNoSlots
+  · simp only [s.heap]; exact h.leafNoPtr
+  · simp only [s.phase, s.heap]
     intro hm i o ho hb hh p hp
     rw [s.ptrMarked]; exact h.tri hm i o ho hb hh p hp
   · rw [s.phase, s.rnt]
     intro hm hr p hp
     rw [s.ptrMarked]; exact h.triRoot hm hr p hp
-  · rw [s.heap]
+  · simp only [s.heap]
     intro i o ho hs p hp
     rw [s.ptrOK]; rw [s.safe] at hs; exact h.closed i o ho hs p hp
   · intro p hp; rw [s.ptrOK]; exact h.rootOK p hp
   · intro p hp; rw [s.ptrOK]; exact h.tempsOK p hp
 
 @[simp] theorem sameView_step (c : Ctx) (ch : Char) : SameView c (c.step ch) := by
-  constructor <;> rfl
+  constructor <;> first | rfl | (intro _; rfl)
 
 @[simp] theorem sameView_emit (c : Ctx) (e : Event) : SameView c (c.emit e) := by
-  constructor <;> rfl
+  constructor <;> first | rfl | (intro _; rfl)
 
 theorem sameView_withMetrics (c : Ctx) (f : Metrics → Metrics)
     (h1 : (f c.metrics).underflow = c.metrics.underflow)
     (h2 : (f c.metrics).totalGcs = c.metrics.totalGcs) : SameView c (c.withMetrics f) := by
-  constructor <;> first | rfl | exact h1 | exact h2
+  constructor <;> first | rfl | exact h1 | exact h2 | (intro _; rfl)
 
 theorem SameView.trans {a b c : Ctx} (h1 : SameView a b) (h2 : SameView b c) : SameView a c :=
-  ⟨h2.phase.trans h1.phase, h2.heap.trans h1.heap, h2.pre.trans h1.pre, h2.rest.trans h1.rest,
+  ⟨h2.phase.trans h1.phase, fun j => (h2.heap j).trans (h1.heap j), h2.pre.trans h1.pre, h2.rest.trans h1.rest,
    h2.rnt.trans h1.rnt, h2.gray.trans h1.gray, h2.grayAgain.trans h1.grayAgain, h2.err.trans h1.err,
    h2.underflow.trans h1.underflow, h2.total.trans h1.total⟩
 
